@@ -730,40 +730,41 @@ def simplify_constrained_range(source: str) -> str:
 
             conditions.add(condition)
 
+        # The bounds of a range are integers: x > 2.5 must not become range(3.5, ..), and x > 'a' has no bound
         gt_template = (
             ast.Compare(
-                left=ast.Name(id=target_name), ops=[ast.Gt()], comparators=[ast.Constant()]
+                left=ast.Name(id=target_name), ops=[ast.Gt()], comparators=[ast.Constant(value=int)]
             ),
             ast.Compare(
-                left=ast.Constant(), ops=[ast.Lt()], comparators=[ast.Name(id=target_name)]
+                left=ast.Constant(value=int), ops=[ast.Lt()], comparators=[ast.Name(id=target_name)]
         ),)
         lt_template = (
             ast.Compare(
-                left=ast.Name(id=target_name), ops=[ast.Lt()], comparators=[ast.Constant()]
+                left=ast.Name(id=target_name), ops=[ast.Lt()], comparators=[ast.Constant(value=int)]
             ),
             ast.Compare(
-                left=ast.Constant(), ops=[ast.Gt()], comparators=[ast.Name(id=target_name)]
+                left=ast.Constant(value=int), ops=[ast.Gt()], comparators=[ast.Name(id=target_name)]
         ),)
         gte_template = (
             ast.Compare(
-                left=ast.Name(id=target_name), ops=[ast.GtE()], comparators=[ast.Constant()]
+                left=ast.Name(id=target_name), ops=[ast.GtE()], comparators=[ast.Constant(value=int)]
             ),
             ast.Compare(
-                left=ast.Constant(), ops=[ast.LtE()], comparators=[ast.Name(id=target_name)]
+                left=ast.Constant(value=int), ops=[ast.LtE()], comparators=[ast.Name(id=target_name)]
         ),)
         lte_template = (
             ast.Compare(
-                left=ast.Name(id=target_name), ops=[ast.LtE()], comparators=[ast.Constant()]
+                left=ast.Name(id=target_name), ops=[ast.LtE()], comparators=[ast.Constant(value=int)]
             ),
             ast.Compare(
-                left=ast.Constant(), ops=[ast.GtE()], comparators=[ast.Name(id=target_name)]
+                left=ast.Constant(value=int), ops=[ast.GtE()], comparators=[ast.Name(id=target_name)]
         ),)
         eq_template = (
             ast.Compare(
-                left=ast.Name(id=target_name), ops=[ast.Eq()], comparators=[ast.Constant()]
+                left=ast.Name(id=target_name), ops=[ast.Eq()], comparators=[ast.Constant(value=int)]
             ),
             ast.Compare(
-                left=ast.Constant(), ops=[ast.Eq()], comparators=[ast.Name(id=target_name)]
+                left=ast.Constant(value=int), ops=[ast.Eq()], comparators=[ast.Name(id=target_name)]
         ),)
         templates = (gt_template, lt_template, gte_template, lte_template, eq_template)
 
